@@ -242,9 +242,11 @@ def spec_py(a):
 def interleave(ctx, fmt, d, stored, lost, base_vis):
     rng = ctx.rng
     n = ctx.scale(12, 120)
-    d.select(flags='all')
+    d.select(flags='all', weights='all')
     d.select()
     cur = 'all'     # the flag selection in force: the last flags= argument (it survives every other select() call)
+    trace = [(dict(flags='all', weights='all'), _internal(fmt, d))]    # (flags= / weights= of the call, internal state after it)
+    w_all = np.asarray(d.weights[:]).copy()
     for step in range(n):
         kind = rng.choice(['dumps', 'channels', 'ants', 'reset', 'pol'])
         try:
@@ -266,17 +268,17 @@ def interleave(ctx, fmt, d, stored, lost, base_vis):
         v0 = np.asarray(d.vis[:]).copy()
         r0 = np.asarray(d.raw_flags[:]).copy() if fmt == 'v4' else None
         arg = rng.choice(['cam', 'all', '', 'static,cal_rfi', ['data_lost'], 'bogus'])
-        wsel = rng.choice([None, 'all', ''])
+        wsel = rng.choice([None, None, 'all', '', [], 'precision', 'nope'])
         keep = rng.random() < 0.3      # no flags= in this step: the previous flag selection must still be in force
         if keep:
             arg = cur
+        kw = {} if keep else dict(flags=arg)
+        if wsel is not None:
+            kw['weights'] = wsel
         try:
-            if keep:
-                d.select(weights=wsel) if (fmt == 'v3' and wsel is not None) else None
-            elif wsel is None:
-                d.select(flags=arg)
-            else:
-                d.select(flags=arg, weights=wsel) if fmt == 'v3' else d.select(flags=arg)
+            if kw:
+                d.select(**kw)
+                trace.append((kw, _internal(fmt, d)))
         except Exception as e:
             ctx.disagree('fmt=%s;what=select_flags_raises;exc=%s' % (fmt, type(e).__name__),
                          dict(fmt=fmt, arg=canon_arg(arg)), repr(e), None, 'select(flags=...) raised')
@@ -307,6 +309,32 @@ def interleave(ctx, fmt, d, stored, lost, base_vis):
         ctx.note_case((fmt, 'hist', step, kind, canon_arg(arg), before[0], before[1]), sample=None)
         ctx.count('history_steps')
     d.select()
+    trace.append(({}, _internal(fmt, d)))
+    # the internal state (mask, weight indices) after every call against the faithful model of select() (wire 162)
+    if ctx.model_ok:
+        hw = [[_wire_opt(k, 'flags'), _wire_opt(k, 'weights')] for k, _ in trace]
+        mo = ctx.model([[162, [1, FMT_CODE[fmt], hw]]])[0]
+        for j, (k, (mask, wts)) in enumerate(trace):
+            row = mo[j + 1] if isinstance(mo, list) and len(mo) == len(trace) + 1 else None
+            if row is None or mask != row[0] or (fmt != 'v4' and wts != row[1]) or row[0] != row[2]:
+                ctx.disagree('fmt=%s;what=selection_state_after_history;vs=model' % fmt,
+                             dict(fmt=fmt, calls=[{a: canon_arg(b) for a, b in kk.items()} for kk, _ in trace[:j + 1]]),
+                             [mask, wts], row, '_flags_select / _weights_select after a history of select() calls differ '
+                             'from the model of DataSet.select', spec=row[2] if row else None, kind='tie')
+                break
+        ctx.count('selection_state_steps', len(trace))
+    if fmt != 'v4':
+        d.select(weights='')
+        w0 = np.asarray(d.weights[:])
+        d.select(weights='all')
+        if not (np.array_equal(w0, np.ones_like(w_all)) and np.array_equal(np.asarray(d.weights[:]), w_all)
+                and not np.array_equal(w_all, w0)):
+            ctx.disagree('fmt=%s;what=weights_selection' % fmt, dict(fmt=fmt, weights=''), float(w0.ravel()[0]), 1.0,
+                         "weights are not 1.0 under weights='' / not the stored ones again under weights='all'", kind='tie')
+
+
+def _internal(fmt, d):
+    return (int(np.asarray(d._flags_select).ravel()[0]), [int(x) for x in d._weights_select] if fmt != 'v4' else [])
 
 
 def _recover(d):
